@@ -26,6 +26,12 @@ const ORIGIN: &str = "https://origin.example/a/b/c/d?x=1";
 const SIDE: &str = "https://side.example/token";
 const BODY: &str = "original-body";
 const TOKEN: (&str, &str) = ("x-token", "T0k3n");
+/// Headers the app puts on its request besides the token: the kinds a well-meaning middleware might
+/// treat specially (credentials, cookies). "The original request" includes them, wherever it goes.
+const AUTH: (&str, &str) = ("authorization", "Bearer s3cr3t");
+const COOKIE: (&str, &str) = ("cookie", "sid=abc123; theme=dark");
+const PROXY_AUTH: (&str, &str) = ("proxy-authorization", "Basic cHJveHk6cHc=");
+const APP_HEADERS: [(&str, &str); 4] = [TOKEN, AUTH, COOKIE, PROXY_AUTH];
 
 // ---------------------------------------------------------------------------------------------
 // Alphabets
@@ -678,7 +684,9 @@ struct Prepared {
 impl Middleware for Prepared {
     async fn handle(&self, _req: Request, client: Client, _next: Next<'_>) -> crux_http::Result<ResponseAsync> {
         let mut prepared = Request::new(if self.get { Method::Get } else { Method::Post }, Url::parse(ORIGIN).unwrap());
-        prepared.insert_header(TOKEN.0, TOKEN.1);
+        for (n, v) in APP_HEADERS {
+            prepared.insert_header(n, v);
+        }
         if !self.get {
             prepared.body_string(BODY.to_string());
         }
@@ -757,9 +765,9 @@ fn start(cfg: &Config, log: &Log) -> (Host, crate::app::Step) {
         Api::CommandApi => {
             assert!(cfg.client.is_empty());
             let b = if cfg.get {
-                CmdHttp::get(ORIGIN).header(TOKEN.0, TOKEN.1)
+                CmdHttp::get(ORIGIN).header(TOKEN.0, TOKEN.1).header(AUTH.0, AUTH.1).header(COOKIE.0, COOKIE.1).header(PROXY_AUTH.0, PROXY_AUTH.1)
             } else {
-                CmdHttp::post(ORIGIN).header(TOKEN.0, TOKEN.1).body_string(BODY.to_string())
+                CmdHttp::post(ORIGIN).header(TOKEN.0, TOKEN.1).header(AUTH.0, AUTH.1).header(COOKIE.0, COOKIE.1).header(PROXY_AUTH.0, PROXY_AUTH.1).body_string(BODY.to_string())
             };
             let b = attach!(b, &stack, log);
             Host::start_cmd(b.build().then_send(Event::Bytes))
@@ -776,10 +784,10 @@ fn start(cfg: &Config, log: &Log) -> (Host, crate::app::Step) {
                     };
                 }
                 let b = if get {
-                    http.request(Method::Get, Url::parse(ORIGIN).unwrap()).header(TOKEN.0, TOKEN.1)
+                    http.request(Method::Get, Url::parse(ORIGIN).unwrap()).header(TOKEN.0, TOKEN.1).header(AUTH.0, AUTH.1).header(COOKIE.0, COOKIE.1).header(PROXY_AUTH.0, PROXY_AUTH.1)
                 } else {
                     http.request(Method::Post, Url::parse(ORIGIN).unwrap())
-                        .header(TOKEN.0, TOKEN.1)
+                        .header(TOKEN.0, TOKEN.1).header(AUTH.0, AUTH.1).header(COOKIE.0, COOKIE.1).header(PROXY_AUTH.0, PROXY_AUTH.1)
                         .body_string(BODY.to_string())
                 };
                 match api {
@@ -839,7 +847,7 @@ pub fn observe(cfg: &Config, answers: &[Answer]) -> (Trace, u64) {
             method: op.method.clone(),
             url: op.url.clone(),
             body: op.body.clone(),
-            token: op.headers.iter().any(|h| h.name.eq_ignore_ascii_case(TOKEN.0) && h.value == TOKEN.1),
+            token: APP_HEADERS.iter().all(|(n, v)| op.headers.iter().filter(|h| h.name.eq_ignore_ascii_case(n)).map(|h| h.value.as_str()).collect::<Vec<_>>() == [*v]),
         });
         if !events.is_empty() {
             t.anomaly = Some("an event was delivered while a request was still to come".into());
@@ -1642,7 +1650,7 @@ pub fn run(tier: Tier) -> i32 {
         &[
             "Url::join of the url crate is RFC 3986 reference resolution (trusted base)",
             "where the property is silent every reading is accepted: a redirect status without Location may be probed again or end probing; a shell error or an unparsable Location on a probe may be returned or end probing",
-            "probes are checked for URL and empty body only; the request that follows them for method, URL, body and the app's header",
+            "probes are checked for URL and empty body only; the request that follows them for method, URL, body and the app's four headers (x-token, authorization, cookie, proxy-authorization: each exactly once, unchanged)",
             "http-types' Request::clone drops the body (used by the Twice atom and by Redirect itself)",
         ],
     )
